@@ -47,6 +47,13 @@ def run(tier, seed, replay=None):
     from .. import oogen
     oo = [oogen.program(rng) for _ in range(n // 3)]
     oo_truth = [oogen.solutions(m) for _, m in oo]
+    # time-point networks (real-valued difference logic), planted and free
+    for i in range(n // 4):
+        t, m = rgen.tp_program(rng, planted=True)
+        planted.append(("tp", t, m))
+    for i in range(n // 4):
+        t, m = rgen.tp_program(rng, planted=False)
+        free.append(("free", t, m))
     truth = smt2.decide([m for _, _, m in free])
     # metamorphic variants of a third of the constraint programs (planted and free)
     bases = [p for p in planted if p[0].startswith("cons")][: n // 3] + free[: n // 3]
